@@ -11,8 +11,8 @@
 (***************************************************************************)
 EXTENDS Cache, Json, IOUtils, FiniteSets
 Cases == JsonDeserialize(IOEnv.CASES_FILE)
-VARIABLES cid, l, verdict, nt
-tvars == <<vars, cid, l, verdict, nt>>
+VARIABLES cid, l, verdict, nt, dv
+tvars == <<vars, cid, l, verdict, nt, dv>>
 C == Cases[cid]
 Trace == C.trace
 e == Trace[l]
@@ -30,15 +30,21 @@ Cause == IF pgc.st = "complete" /\ UseCache /\ pgc.writer # e.arg THEN "cache-wr
          ELSE IF pgc.st = "prefix" THEN "incomplete-cache-file"
          ELSE IF pgc.st = "complete" /\ UseCache /\ pgc.vers # Vers THEN "stale-cache-accepted"
          ELSE "no-cause-in-the-model"
+\* A step whose observation differs from the machine's is recorded once (verdict, dv = its position) and the replay GOES ON from the machine's
+\* state: the replies of later constructions are still judged against the reference (round-5 seeded change C12-i: an interrupted rewrite in
+\* place left the complete OLD table under a new mtime; the divergence is at the crash, the harm at the next construction).
 TStep ==
-  /\ verdict = "ok" /\ l <= Len(Trace)
+  /\ verdict \in {"ok", "trace-diverges-from-machine"} /\ l <= Len(Trace)
   /\ Act
   /\ l' = l + 1 /\ UNCHANGED cid
-  /\ verdict' = IF Matches THEN "ok" ELSE "trace-diverges-from-machine"
-  /\ nt' = IF e.act = "DoConstruct" /\ e.reply # "table-fresh" THEN nt \cup { <<l, e.reply, Cause>> } ELSE nt
+  /\ verdict' = IF Matches THEN verdict ELSE "trace-diverges-from-machine"
+  /\ dv' = IF ~Matches /\ dv = 0 THEN l ELSE dv
+  /\ nt' = IF e.act = "DoConstruct" /\ e.reply # "table-fresh" THEN nt \cup { <<l, e.reply, IF dv = 0 THEN Cause ELSE "after-a-step-the-machine-does-not-explain">> } ELSE nt
 \* an action the machine does not even enable (e.g. a crash while the cache is used) ends the case
-TStuck == verdict = "ok" /\ l <= Len(Trace) /\ ~ENABLED Act /\ verdict' = "action-not-enabled-in-machine" /\ UNCHANGED <<vars, cid, l, nt>>
-TInit == Init /\ cid \in DOMAIN Cases /\ l = 1 /\ verdict = "ok" /\ nt = {}
+TStuck == verdict \in {"ok", "trace-diverges-from-machine"} /\ l <= Len(Trace) /\ ~ENABLED Act /\ verdict' = "action-not-enabled-in-machine"
+          /\ dv' = IF dv = 0 THEN l ELSE dv /\ UNCHANGED <<vars, cid, l, nt>>
+TInit == Init /\ cid \in DOMAIN Cases /\ l = 1 /\ verdict = "ok" /\ nt = {} /\ dv = 0
 TSpec == TInit /\ [][TStep \/ TStuck]_tvars
-Report == (verdict # "ok" \/ l > Len(Trace)) => PrintT(<<"VERDICT", C.cix, verdict, l, nt>>)
+\* reported once per case: at the end of the trace, or where the machine got stuck; dv = position of the first step it does not explain (0: none)
+Report == (verdict = "action-not-enabled-in-machine" \/ l > Len(Trace)) => PrintT(<<"VERDICT", C.cix, verdict, dv, nt>>)
 =============================================================================
